@@ -110,12 +110,16 @@ def openOp (file : Bytes) (dec : List (Nat × Bytes)) (qs : List (Nat × Nat)) :
     "ok " ++ " ".intercalate answers ++ " T" ++ (Driver.C01.norm (.dict o.trailer)).wire ++ " X" ++ showXMap o.xref
 
 /-- the `getInt` handed to the scanner in `rdobj` lines: direct integers are themselves;
-    everything else fails (`e`) or gives the fixed value `v<k>` -/
-def getIntOfMode (mode : String) : Obj → Option Int
-  | .int n => some n
+    everything else gives the fixed value `v<k>`, fails with a read error (`e`) or fails with a
+    malformed-file error (`m`) -/
+def getIntOfMode (mode : String) : Obj → Except Err Int
+  | .int n => .ok n
   | _ => match mode.toList with
-    | 'v' :: ds => (String.ofList ds).toInt?
-    | _ => none
+    | 'v' :: ds => match (String.ofList ds).toInt? with
+      | some k => .ok k
+      | none => .error .malformed
+    | 'm' :: _ => .error .malformed
+    | _ => .error .other
 
 def handle (args : List String) : String :=
   match args with
